@@ -133,8 +133,12 @@ class ThetaForecaster(ExponentialSmoothing):
             warn("`sp` is ignored when `deseasonalise`=False")
 
         if self.deseasonalize:
-            self.deseasonalizer_ = Deseasonalizer(sp=self.sp, model="multiplicative")
-            y = self.deseasonalizer_.fit_transform(y)
+            # keep the deseasonalizer of an earlier fit until the new one is fitted:
+            # if this step raises, the forecaster must not be left reporting
+            # is_fitted with an unfitted deseasonalizer_
+            deseasonalizer = Deseasonalizer(sp=self.sp, model="multiplicative")
+            y = deseasonalizer.fit_transform(y)
+            self.deseasonalizer_ = deseasonalizer
 
         self.initialization_method = "known" if self.initial_level else "estimated"
         # fit exponential smoothing forecaster
